@@ -958,6 +958,12 @@ def extract_fields(obj: model.CanContainImportsDocumentable) -> None:
                 attrobj.kind = None
                 attrobj.parentMod = obj.parentMod
                 obj.system.addObject(attrobj)
+            elif not isinstance(attrobj, model.Attribute):
+                # The name is the one of a submodule of this package:
+                # it's not a variable, the field cannot turn it into one.
+                obj.report(f'Field @{tag} documents "{arg}", which is not a variable '
+                           f'but {attrobj!r}', 'docstring', field.lineno)
+                continue
             lineno = model.LineFromDocstringField(obj.docstring_lineno + field.lineno)
             attrobj.setLineNumber(lineno)
             if not attrobj.docstring_lineno:
